@@ -70,6 +70,90 @@ func outsideQ(run *evid.Run, what string, example interface{}) {
 	}
 }
 
+// ownKind is the kind class of the pod's own owner ("NULL" for pods without owner).
+func ownKind(g *genPod) string {
+	if len(g.Pod.OwnerReferences) == 0 {
+		return "NULL"
+	}
+	return g.Pod.OwnerReferences[0].Kind
+}
+
+// observeRun counts an observation that is not a violation and keeps the first example per counter in the evidence
+// under "observations".
+func observeRun(run *evid.Run, counter string, example interface{}) {
+	run.Count(counter, 1)
+	obsMu.Lock()
+	defer obsMu.Unlock()
+	if observations[counter] == nil {
+		observations[counter] = example
+		cp := map[string]interface{}{}
+		for k, v := range observations {
+			cp[k] = v
+		}
+		run.Set("observations", cp)
+	}
+}
+
+var observations = map[string]interface{}{}
+
+// checkKindPair applies the key laws to a pod p of a kind galaxy treats specially and its sibling q: same namespace,
+// app, pod and pool names, owner kind string-related to p's. Kinds of different classes (kindClass) must not share a
+// key or an app prefix, and q's key must decode to q's own class. Kinds of one class (case variants, the documented
+// plural alias) share a key by design: observed, not judged.
+func checkKindPair(run *evid.Run, caseID string, p *genPod, koP *util.KeyObj, a advKind, q *genPod) {
+	koQ, err := util.FormatKey(q.Pod)
+	run.Eval(1)
+	if err != nil {
+		run.Count("key_kindpairs_formatkey_refused", 1)
+		return
+	}
+	tag := a.tag()
+	judged := kindClass(ownKind(p)) != kindClass(a.Kind)
+	run.Count("key_kindpairs_"+a.Relation, 1)
+	if judged {
+		run.Count("key_kindpairs_judged", 1)
+	} else {
+		run.Count("key_kindpairs_same_class_observed", 1)
+	}
+	w := map[string]interface{}{"builtin_pod": witnessOf(p), "builtin_key": koP.KeyInDB, "adversarial_kind": a,
+		"adversarial_pod": witnessOf(q), "adversarial_key": koQ.KeyInDB}
+	ok := true
+	if koQ.KeyInDB == koP.KeyInDB {
+		if judged {
+			ok = false
+			violate(run, evid.Violation{Sig: "key-collision-" + tag, Msg: fmt.Sprintf(
+				"owner %s/%s and owner %s/%s (same namespace %q, pod %q) share key %q", ownKind(p), koP.AppName, a.Kind,
+				koQ.AppName, p.Pod.Namespace, p.Pod.Name, koP.KeyInDB), Witness: w, Case: caseID})
+		} else {
+			observeRun(run, "obs_kind_alias_shares_key_"+tag, w)
+		}
+	}
+	parsed := util.ParseKey(koQ.KeyInDB)
+	if d := util.GetAppType(parsed.AppTypePrefix); !strings.EqualFold(d, kindClass(a.Kind)) {
+		ok = false
+		w2 := map[string]interface{}{"decoded_app_type": d, "want_class": kindClass(a.Kind)}
+		for k, v := range w {
+			w2[k] = v
+		}
+		violate(run, evid.Violation{Sig: "apptype-decode-" + tag, Msg: fmt.Sprintf(
+			"key %q of a pod owned by kind %q decodes to app type %q, the kind's class is %q", koQ.KeyInDB, a.Kind, d,
+			kindClass(a.Kind)), Witness: w2, Case: caseID})
+	}
+	if judged {
+		for name, pair := range map[string][2]string{"builtin-prefix-captures-adversarial-key": {koP.PoolAppPrefix(), koQ.KeyInDB},
+			"adversarial-prefix-captures-builtin-key": {koQ.PoolAppPrefix(), koP.KeyInDB}} {
+			if strings.HasPrefix(pair[1], pair[0]) {
+				ok = false
+				violate(run, evid.Violation{Sig: "prefix-containment-" + tag, Msg: fmt.Sprintf(
+					"%s: app prefix %q is a prefix of the other owner's key %q", name, pair[0], pair[1]), Witness: w, Case: caseID})
+			}
+		}
+	}
+	if ok && judged {
+		run.Nontrivial("kindpair|" + tag)
+	}
+}
+
 // runKeyBatch generates and checks one batch of n pods. Returns the number of pods checked.
 func runKeyBatch(run *evid.Run, idx, n int) int {
 	cls := batchClass(idx)
@@ -105,6 +189,15 @@ func runKeyBatch(run *evid.Run, idx, n int) int {
 			a, b := underscorePair(r)
 			add(a)
 			add(b)
+		}
+		if bs := builtinsOfOwnerClass(g.OwnerClass); cls == clsDNS && len(bs) > 0 && r.Intn(3) == 0 {
+			if ko, err := util.FormatKey(g.Pod); err == nil {
+				kinds := advKindsOf(bs[r.Intn(len(bs))])
+				for k := 0; k < 3; k++ {
+					a := kinds[r.Intn(len(kinds))]
+					checkKindPair(run, caseID, g, ko, a, advSibling(r, g, ko.AppName, a))
+				}
+			}
 		}
 		if r.Intn(6) == 0 {
 			for _, a := range adversarial(r, g) {
